@@ -1,6 +1,7 @@
 package harness
 
 import (
+	"time"
 	"bytes"
 	"crypto/sha256"
 	"fmt"
@@ -97,6 +98,39 @@ func TestE1Transport(t *testing.T) {
 		return d
 	}
 	for i := 0; i < n; i++ {
+		if i == n/3 || i == 2*n/3 {
+			// what Stop() and Restart() of a node do to its transport: the same object is shut down and run
+			// again (twice in a run); it must serve requests again, the sender must reach it again
+			line := fmt.Sprintf("RERUN | transport b shut down and run again (#%d)", i)
+			rep.Case(line, true)
+			rep.Hit("shutdown-then-run")
+			if err := b.Shutdown(); err != nil {
+				rep.Add(Finding{Kind: "oracle", Property: "C18", Oracle: "Shutdown of a running transport failed: " + err.Error(), Case: line})
+			}
+			if err := b.Run(); err != nil {
+				rep.Add(Finding{Kind: "oracle", Property: "C18", Oracle: "Run after Shutdown failed: " + err.Error(), Case: line})
+			}
+			ok := false
+			var lastErr error
+			for try := 0; try < 40 && !ok; try++ {
+				mu.Lock()
+				gotRV = raft.RequestVoteRequest{}
+				respRV = raft.RequestVoteResponse{Term: 77, VoteGranted: true}
+				mu.Unlock()
+				r, err := a.SendRequestVote(baddr, raft.RequestVoteRequest{CandidateID: "probe", Term: 77})
+				lastErr = err
+				mu.Lock()
+				ok = err == nil && r.Term == 77 && gotRV.CandidateID == "probe"
+				mu.Unlock()
+				if !ok {
+					time.Sleep(50 * time.Millisecond)
+				}
+			}
+			if !ok {
+				rep.Add(Finding{Kind: "oracle", Property: "C15", Oracle: fmt.Sprintf("a transport that was shut down and run again (Stop + Restart of its node) does not serve requests any more: 40 attempts over 2 s failed, last error: %v", lastErr), Case: line,
+					Signature: map[string]string{"oracle": "transport-serves-after-rerun"}})
+			}
+		}
 		switch i % 4 {
 		case 0, 1:
 			q := raft.AppendEntriesRequest{LeaderID: genID(rng), Term: genU64(rng), LeaderCommit: genU64(rng), PrevLogIndex: genU64(rng), PrevLogTerm: genU64(rng), Entries: genEntries(rng)}
